@@ -3,6 +3,7 @@ import RR.Proof.SyncWork
 import RR.Proof.Hand
 import RR.Proof.DspFir
 import RR.Proof.DspFftTags
+import RR.Proof.TagDrive
 
 /-!
 # C12 — blocks carry tags forward exactly once, at the corresponding output sample
@@ -106,6 +107,30 @@ theorem c12_fir {α : Type} (o : Dsp.Ops α) (cd : Dsp.Codec α) (rt : List α) 
       omega
     exact (Nat.div_lt_div_of_lt_of_dvd (Nat.dvd_of_mod_eq_zero hmod) hu)
 
+/-- **Skip(k), every schedule** (`sched` = the (readable, free) pairs of the successive calls; `T` = the
+tags of the input history, absolute positions, any number per sample): the tags of the `k` skipped samples are
+dropped and every other tag of a consumed sample has been handed on exactly once, at index `pos - k`. -/
+theorem c12_skip_any_chunking (k : Nat) (X : List Nat) (T : List Tag) (sched : List (Nat × Nat)) :
+    let r := Dsp.driveT (skipBlock k) X T k 0 [] [] sched
+    r.2.2.2.Perm ((Dsp.rng T k (max k r.2.1)).map (Dsp.mp (· - k))) ∧ r.2.2.1 = (X.take r.2.1).drop k :=
+  Dsp.skip_tags_drive k X T sched
+
+/-- **Delay(d), every schedule**: every tag of a consumed sample has been handed on exactly once, at
+index `pos + d` (and the output is `d` zeros followed by the input). -/
+theorem c12_delay_any_chunking (d : Nat) (X : List Nat) (T : List Tag) (sched : List (Nat × Nat)) :
+    let r := Dsp.driveT (delayBlock d) X T ⟨d, 0⟩ 0 [] [] sched
+    r.2.2.2.Perm ((Dsp.rng T 0 r.2.1).map (Dsp.mp (· + d))) ∧
+    ∃ z, z ≤ d ∧ (0 < r.2.1 → z = d) ∧ r.2.2.1 = List.replicate z 0 ++ X.take r.2.1 :=
+  Dsp.delay_tags_drive d X T sched
+
+/-- **FirFilter (any arithmetic, any decimation), every schedule**: every tag of a consumed sample has
+been handed on exactly once, at index `pos / decimation`; consumed = outputs × decimation. -/
+theorem c12_fir_any_chunking {α : Type} (o : Dsp.Ops α) (cd : Dsp.Codec α) (taps : List α) (deci : Nat) (X : List Nat)
+    (T : List Tag) (hd : 0 < deci) (ht : 0 < taps.length) (sched : List (Nat × Nat)) :
+    let r := Dsp.driveT (Dsp.firBlock o cd taps deci) X T () 0 [] [] sched
+    r.2.2.2.Perm ((Dsp.rng T 0 r.2.1).map (Dsp.mp (· / deci))) ∧ r.2.1 = r.2.2.1.length * deci :=
+  Dsp.fir_tags_drive o cd taps deci X T hd ht sched
+
 /-- **FftFilter, every schedule.** The input history `X` carries the tags `T` (absolute
 positions, any number per sample, any order). However the input is cut into read windows and however
 much output space each call finds, at every moment: the tags handed downstream so far (rebased to
@@ -126,6 +151,10 @@ theorem c12_fft {α : Type} (o : Dsp.Ops α) (cd : Dsp.Codec α) (taps : List α
 
 /-! Non-vacuity. -/
 example : 0 < Dsp.calcFftSize 3 - 3 := by decide
+example : (Dsp.driveT (delayBlock 2) [7, 8, 9, 10] [⟨0, 1, 1⟩, ⟨2, 2, 2⟩, ⟨3, 3, 3⟩] ⟨2, 0⟩ 0 [] [] [(1, 1), (3, 2), (2, 9), (4, 1)]).2 =
+    (4, [0, 0, 7, 8, 9, 10], [⟨2, 1, 1⟩, ⟨4, 2, 2⟩, ⟨5, 3, 3⟩]) := by decide
+example : (Dsp.driveT (skipBlock 2) [7, 8, 9, 10] [⟨0, 1, 1⟩, ⟨2, 2, 2⟩, ⟨3, 3, 3⟩] (2 : Nat) 0 [] [] [(1, 1), (3, 2), (3, 9)]).2 =
+    (4, [9, 10], [⟨0, 2, 2⟩, ⟨1, 3, 3⟩]) := by decide
 example :
     let r := Dsp.driveT (Dsp.fftBlock Dsp.giOps Dsp.giCodec [(1, 0), (2, 0), (1, 0)]) (List.range 40)
       [⟨0, 1, 1⟩, ⟨4, 2, 2⟩, ⟨4, 3, 3⟩, ⟨9, 4, 4⟩, ⟨30, 5, 5⟩] (Dsp.fftBlock Dsp.giOps Dsp.giCodec [(1, 0), (2, 0), (1, 0)]).init
